@@ -671,6 +671,18 @@ class Event:
                 "'Data Set' parameter"
             )
 
+        path = getattr(request, "_dataset_path", None)
+        if not stream and isinstance(path, Path):
+            # Received in chunks: the dataset is in the DICOM File Format at `path`
+            with open(path, "rb") as f:
+                data = f.read()
+
+            if include_meta:
+                return data
+
+            # Skip the preamble, prefix and File Meta Information group
+            return data[144 + int.from_bytes(data[140:144], "little") :]
+
         if not include_meta:
             return stream
 
